@@ -1,6 +1,7 @@
 import VerifModel.Base.Proto
 import VerifModel.Model.Diagram
 import VerifModel.Model.DiagramMore
+import VerifModel.Model.DiagramStd
 import VerifModel.Spec.Diagram
 /-
   Driver ops for C16:
@@ -28,6 +29,9 @@ structure Opts where
   simple : Bool := false
   tm : Vec := []          -- initialisation times (unixtime) and lead times (hours): timeseries, meteo
   ld : Vec := []
+  agg : Agg := .mean      -- -agg
+  acc : Bool := false     -- -acc
+  xk : String := "data"   -- kind of x-axis: threshold | no | data (standard, obsfcst)
 
 abbrev Inp := List (String × List Vec)
 
@@ -45,6 +49,9 @@ def parseOpts (s : String) : Option Opts :=
       else if k == "simple" then some { o with simple := true }
       else if k == "tm" then (parseVec? v).map fun x => { o with tm := x }
       else if k == "ld" then (parseVec? v).map fun x => { o with ld := x }
+      else if k == "agg" then (Agg.get v).map fun a => { o with agg := a }
+      else if k == "acc" then some { o with acc := true }
+      else if k == "xk" then some { o with xk := v }
       else some o
     | _ => none) {}
 
@@ -75,6 +82,17 @@ def line (ax : Nat) (label : String) (xs ys : Vec) : Series := { ax := ax, kind 
 
 def zipSl (a b : List Vec) : List (Vec × Vec) := a.zip b
 
+/-- standard: in<k> carries o<i>, a<i>, b<i> = the columns get_scores returned for interval i (observation, second
+field, third field), one slice after the other -/
+def stdCells (i : Inp) (n : Nat) : List (List DiagramStd.Cols) :=
+  (List.range n).map fun k =>
+    let a := getS i s!"a{k}"
+    let b := getS i s!"b{k}"
+    (getS i s!"o{k}").zipIdx.map fun s => (s.1, a.getD s.2 [], b.getD s.2 [])
+
+def xKind (s : String) : DiagramStd.XKind :=
+  if s == "threshold" then .threshold else if s == "no" then .no else .data
+
 
 def figure (T : Tr) (name : String) (o : Opts) (ins : List Inp) : Option (List Series) :=
   let F := ins.length
@@ -87,18 +105,21 @@ def figure (T : Tr) (name : String) (o : Opts) (ins : List Inp) : Option (List S
   match name with
   | "obsfcst" =>
     let qs := o.q.getD []
-    some (obsfcstSeries (o.ax.getD []) (getS (ins.headD []) "obs")
-      (ins.map fun i => (getS i "fcst", qs.zipIdx.map fun q => (pct q.1, getS i s!"q{q.2}"))))
+    let cols := ins.map fun i => (getS i "fcst", qs.zipIdx.map fun q => (pct q.1, getS i s!"q{q.2}"))
+    if o.agg == .mean && !o.acc && o.xk != "no" then
+      some (obsfcstSeries (o.ax.getD []) (getS (ins.headD []) "obs") cols)
+    else
+      some (DiagramStd.obsfcstFigure T o.agg o.acc (o.xk == "no") (o.ax.getD []) (getS (ins.headD []) "obs") cols)
   | "qq" =>
     let qs := o.q.getD []
     some (perInput (fun k i =>
-      let col := fun key => if hasAx then sliceMeans (getS i key) else get1 i key
+      let col := fun key => if hasAx then DiagramStd.sliceAgg T o.agg (getS i key) else get1 i key
       let s := qqSeries (col "obs") (col "fcst")
       line 0 (inName k ++ (if qs.isEmpty then "" else "_(deterministic)")) s.1 s.2 ::
         qs.zipIdx.map fun q => line 0 (inName k ++ "_(" ++ pct q.1 ++ ")") s.1 (sortN (col s!"q{q.2}"))) ins)
   | "scatter" =>
     some (perInput (fun k i =>
-      let col := fun key => if hasAx then sliceMeans (getS i key) else get1 i key
+      let col := fun key => if hasAx then DiagramStd.sliceAgg T o.agg (getS i key) else get1 i key
       let obs := col "obs"
       let fc := col "fcst"
       line 0 (inName k) obs fc ::
@@ -178,8 +199,13 @@ def figure (T : Tr) (name : String) (o : Opts) (ins : List Inp) : Option (List S
       let pts := (zipSl (getS i "obs") (getS i "p")).map fun s => bsdecompPoint (bsCases bAbove t s.1 s.2)
       [line 0 (inName k) (pts.map (·.1)) (pts.map (·.2))]) ins)
   | "standard" =>
-    some (perInput (fun k i =>
-      [line 0 (inName k) (o.ax.getD []) (standardSeries T o.m (zipSl (getS i "obs") (getS i "fcst")))]) ins)
+    -- the four deterministic scores on a data axis without -agg / -acc keep the model of C16_def_standard
+    if o.xk == "data" && o.agg == .mean && !o.acc && o.r.isNone && ["mae", "bias", "rmse", "corr"].contains o.m then
+      some (perInput (fun k i =>
+        [line 0 (inName k) (o.ax.getD []) (standardSeries T o.m ((stdCells i 1).headD [] |>.map fun c => (c.1, c.2.1)))]) ins)
+    else
+      let ivs := getIntervals bAbove o.r
+      DiagramStd.standard T o.m o.agg o.acc (xKind o.xk) (o.ax.getD []) ivs (ins.map fun i => stdCells i ivs.length)
   | "droc" | "droc0" =>
     let fts := if name == "droc0" then [t] else drocDefaultThresholds t
     (ins.mapM fun i => drocSeries T bAbove t fts (get1 i "obs") (get1 i "fcst")).map fun cs =>
